@@ -1103,6 +1103,13 @@ def run(ctx: Ctx, rep: Report, tier: str) -> None:
     from .c09 import grammar_reads_protocols
 
     grammar_reads_protocols(ctx, rep, rid="R01.19")
+    # R01.21 "for every software-version table": a platform's port names are read from its own tables at every version
+    # (C09 R09.17) - NX-OS at major 15 reading the IOS 15 table refuses `eq drip`
+    from .c09 import version_tables_per_platform
+
+    sub917 = type(rep)("C01")
+    version_tables_per_platform(ctx, sub917)
+    rep.absorb(sub917, "R01.21")
     # R01.20 a wildcard mask is read bit by bit over all 32 positions (C05 R05.8): a loop that stops one short reads
     # `10.0.0.0 128.0.0.255` as half of the addresses it names
     from .c05 import r05_8
